@@ -125,12 +125,33 @@ func randomVariety(rnd *rand.Rand) sessVariety {
 		v.MaxLe = 256 // premise: the caller does not ask a chip without extended length for more than 256
 	}
 	v.DG13Size = []int{0, 5, 127, 128, 129, 231, 232, 255, 256, 257, 258, 700, 4093}[rnd.Intn(13)]
+	// premise of the success clause: the file fits into the library's limit of 1000 reads at the chip's response cap
+	if v.Transport.MaxRead > 0 && v.DG13Size/v.Transport.MaxRead > 900 {
+		v.Transport.MaxRead = 8
+	}
 	return v
 }
 
 // personalise builds the passport for an abstract configuration + variety.
 func personalise(c sessCfg, v sessVariety) (*perso.Passport, error) {
 	o := perso.Options{Seed: v.Seed, IssuerTrusted: c.Trusted, KeySpec: v.KeySpec, Transport: v.Transport, CAN: "123456", DG13Size: v.DG13Size}
+	// content-preserving freedoms of the issuer: the outer length of DG13 in a longer form than the shortest, the
+	// hash list of EF.SOD (a SEQUENCE OF) in ascending / descending / arbitrary order of data group numbers
+	o.DG13LongLength = v.Seed%4 == 1
+	o.SodVariant = func(s *pki.SODSpec) {
+		var order []int
+		for n := range s.DGs {
+			order = append(order, n)
+		}
+		sort.Ints(order)
+		switch v.Seed % 3 {
+		case 1:
+			sort.Sort(sort.Reverse(sort.IntSlice(order)))
+		case 2:
+			rand.New(rand.NewSource(v.Seed)).Shuffle(len(order), func(i, j int) { order[i], order[j] = order[j], order[i] })
+		}
+		s.DGOrder = order
+	}
 	o.BAC = strings.Contains(c.Access, "bac")
 	cam := strings.HasPrefix(c.Access, "cam")
 	if strings.HasPrefix(c.Access, "pace") {
